@@ -30,7 +30,7 @@ pub enum Roots {
 
 /// One breadth-first exploration; returns the stored representative histories.
 pub fn bfs(env: &Env, report: &mut Report, prof: &Profile, roots: Roots, depth: usize, props: Props, count_last: bool) -> Vec<Vec<History>> {
-    let ex = Explorer { prof, props, threads: env.threads, findings: env.findings, budget: env.budget, close_rotations: props.c03, seed: env.seed };
+    let ex = Explorer { prof, props, threads: env.threads, findings: env.findings, budget: env.budget, close_rotations: props.c03, seed: env.seed, store_last: count_last && depth <= 4 };
     let (r, name) = match roots {
         Roots::Empty => (vec![vec![]], "empty pool".to_string()),
         Roots::Seeds => {
@@ -50,7 +50,7 @@ pub fn bfs(env: &Env, report: &mut Report, prof: &Profile, roots: Roots, depth: 
 fn determinism_selfcheck(env: &Env, report: &mut Report, prof: &Profile, depth: usize) {
     let run = |threads: usize, seed: u64| {
         let scratch = Findings::default();
-        let ex = Explorer { prof, props: Props::default(), threads, findings: &scratch, budget: env.budget, close_rotations: false, seed };
+        let ex = Explorer { prof, props: Props::default(), threads, findings: &scratch, budget: env.budget, close_rotations: false, seed, store_last: false };
         ex.run(vec![vec![]], depth, true).levels.iter().map(|l| (l.new_states, l.transitions, l.digest)).collect::<Vec<_>>()
     };
     let a = run(env.threads, env.seed);
@@ -105,7 +105,7 @@ pub fn run_property(prop: &str, tier: &str, threads: usize, budget: &Budget, fin
         }
         "C02" => {
             report.rule = "same graph as C01 incl. failing and panicking operations; oracle: every handle that is not the target of the step is bit-identical (text, length, pointer, capacity, raw words) before and after; 'static bytes pristine; sentinels around every handle intact".into();
-            let (dw, ds, dsh, dst) = if quick { (4, 3, 5, 4) } else { (5, 4, 6, 6) };
+            let (dw, ds, dsh, dst) = if quick { (4, 3, 4, 4) } else { (5, 4, 6, 6) };
             bfs(&env, report, &wide, Roots::Empty, dw, props, true);
             bfs(&env, report, &wide, Roots::Seeds, ds, props, true);
             bfs(&env, report, &share, Roots::Seeds, dsh, props, true);
@@ -130,7 +130,7 @@ pub fn run_property(prop: &str, tier: &str, threads: usize, budget: &Budget, fin
             report.rule = "for every stored state of the explored graph, every enabled operation in both forms (plain / try_), every allocator request k the operation issues is refused in turn (1 deviation); second refusals inside the same call and in every follow-up operation (2 deviations); distinct = distinct (operation, target storage, form, outcome class)".into();
             // pairs (two refusals, the second one in a follow-up operation) up to depth dp;
             // single refusals + in-call second refusals + follow-ups up to depth dw
-            let (dw, dp, ds) = if quick { (3, 2, 0) } else { (4, 3, 1) };
+            let (dw, dp, ds) = if quick { (3, 2, 0) } else { (4, 2, 1) };
             let stored = bfs(&env, report, &wide, Roots::Empty, dw, Props::default(), true);
             let mut shallow = flatten(&stored, dp);
             let deep: Vec<History> = stored.iter().skip(dp + 1).flat_map(|l| l.iter().cloned()).collect();
@@ -150,7 +150,7 @@ pub fn run_property(prop: &str, tier: &str, threads: usize, budget: &Budget, fin
         }
         "C06" => {
             report.rule = "for every stored state and every live handle: try_reserve / reserve / try_shrink_to / shrink_to / extend(iterator with size_hint lower bound n yielding 0-2 items) for every n in SIZES (powers of two +-2, the 56-bit limit +-3, isize::MAX +-2, usize::MAX-2.., each minus the current length, len+-1, cap+-1); state-independent: try_with_capacity / with_capacity / collect with hint n; requests above 1 MiB are refused by the shim; distinct = distinct (entry point, target storage, outcome)".into();
-            let (dw, ds) = if quick { (3, 0) } else { (3, 1) };
+            let (dw, ds) = if quick { (2, 0) } else { (3, 1) };
             let stored = bfs(&env, report, &wide, Roots::Empty, dw, Props::default(), true);
             let mut states = flatten(&stored, dw);
             states.extend(flatten(&bfs(&env, report, &wide, Roots::Seeds, ds, Props::default(), true), ds));
@@ -234,10 +234,12 @@ pub fn run_property(prop: &str, tier: &str, threads: usize, budget: &Budget, fin
             let scx = SweepCtx { prof: &sp, findings, stats: &stats };
             sweeps::c12_sweep(&scx, quick, threads);
             report.add_probe(stats.to_json("growth-sweep", 0, true));
+            // growth events of calls that complete although the allocator refused a request
+            fault_pass(&env, report, &wide, if quick { 2 } else { 3 });
         }
         "C13" => {
             report.rule = "every shrink_to / shrink_to_fit transition of the explored graph, and for every stored state and every live handle: shrink_to_fit and shrink_to(m) for every m in 0..=capacity+2 and every m of C06's SIZES, both forms; oracle = the statement's capacity algebra, texts of all handles unchanged, other handles untouched".into();
-            let (dw, dp, dsh) = if quick { (4, 3, 4) } else { (5, 4, 6) };
+            let (dw, dp, dsh) = if quick { (4, 3, 4) } else { (4, 4, 6) };
             let stored = bfs(&env, report, &wide, Roots::Empty, dw, props, true);
             bfs(&env, report, &share, Roots::Seeds, dsh, props, true);
             let mut states = flatten(&stored, dp);
@@ -246,6 +248,9 @@ pub fn run_property(prop: &str, tier: &str, threads: usize, budget: &Budget, fin
             let cx = ProbeCtx { prof: &wide, findings, stats: &stats, heap_as: None, iso_as: None };
             let (done, complete) = for_each_state(&states, threads, budget, |h| probes::shrink_probe(&cx, h));
             report.add_probe(stats.to_json("every-m", done, complete));
+            // shrinks whose allocator requests are refused (singly): the same capacity algebra
+            fault_pass(&env, report, &wide, if quick { 2 } else { 3 });
+            fault_pass(&env, report, &share, if quick { 2 } else { 3 });
         }
         "C17" => {
             report.rule = "in every state of the explored graph: all ordered pairs of live handles (==, !=, cmp, partial_cmp, <, >=, Hash with a fixed-key hasher) and every handle against str/&str/String/Cow in both orders, Display/Debug/padding, Borrow/AsRef/Deref, HashMap/BTreeMap lookups by &str and iteration order, all compared with the same operations on the model strs; representation zoo: texts x 9 construction routes, all pairs".into();
@@ -316,6 +321,21 @@ fn deviation_passes(env: &Env, report: &mut Report, prof: &Profile, depth: usize
     let cx = ProbeCtx { prof, findings: env.findings, stats: &stats, heap_as, iso_as };
     let (done, complete) = for_each_state(&states, env.threads, env.budget, |h| probes::panic_probe(&cx, h));
     report.add_probe(stats.to_json("callback-panics", done, complete));
+}
+
+/// Allocation-refusal pass (single refusals + follow-ups) over every stored state up to `depth`;
+/// used by properties whose statement also covers calls that meet a refusing allocator.
+fn fault_pass(env: &Env, report: &mut Report, prof: &Profile, depth: usize) {
+    let stored = bfs(env, report, prof, if prof.name == "share" { Roots::Seeds } else { Roots::Empty }, depth, Props::default(), true);
+    let mut states = flatten(&stored, depth);
+    if prof.name != "share" {
+        states.extend(flatten(&bfs(env, report, prof, Roots::Seeds, 0, Props::default(), true), 0));
+    }
+    let stats = ProbeStats::default();
+    let cx = ProbeCtx { prof, findings: env.findings, stats: &stats, heap_as: None, iso_as: None };
+    let cfg = FaultCfg { followups: false, pairs: false };
+    let (done, complete) = for_each_state(&states, env.threads, env.budget, |h| probes::fault_probe(&cx, h, &cfg));
+    report.add_probe(stats.to_json(&format!("allocation-refusal/{}", prof.name), done, complete));
 }
 
 pub fn profile_by_name(name: &str) -> Option<Profile> {
